@@ -449,97 +449,7 @@ func (c *Ctx) unrollConstLoop(fn *ssa.Function, at ssa.Instruction, arg ssa.Valu
 		return nil, "the bit test is not inside a loop"
 	}
 	env := map[ssa.Value]int64{}
-	var eval func(v ssa.Value, depth int) (int64, bool)
-	eval = func(v ssa.Value, depth int) (int64, bool) {
-		if depth > 20 {
-			return 0, false
-		}
-		if x, ok := env[v]; ok {
-			return x, true
-		}
-		switch x := v.(type) {
-		case *ssa.Const:
-			if x.Value == nil {
-				return 0, false
-			}
-			if x.Value.Kind() == constant.Bool {
-				if constant.BoolVal(x.Value) {
-					return 1, true
-				}
-				return 0, true
-			}
-			if n, ok := constant.Int64Val(constant.ToInt(x.Value)); ok {
-				return n, true
-			}
-			if u, ok := constant.Uint64Val(constant.ToInt(x.Value)); ok {
-				return int64(u), true
-			}
-			return 0, false
-		case *ssa.Convert:
-			n, ok := eval(x.X, depth+1)
-			if !ok {
-				return 0, false
-			}
-			return truncTo(n, x.Type()), true
-		case *ssa.ChangeType:
-			return eval(x.X, depth+1)
-		case *ssa.MakeInterface:
-			return eval(x.X, depth+1)
-		case *ssa.BinOp:
-			a, ok1 := eval(x.X, depth+1)
-			b, ok2 := eval(x.Y, depth+1)
-			if !ok1 || !ok2 {
-				return 0, false
-			}
-			bl := func(t bool) int64 {
-				if t {
-					return 1
-				}
-				return 0
-			}
-			var r int64
-			switch x.Op {
-			case token.ADD:
-				r = a + b
-			case token.SUB:
-				r = a - b
-			case token.MUL:
-				r = a * b
-			case token.SHL:
-				if b < 0 || b > 63 {
-					r = 0
-				} else {
-					r = int64(uint64(a) << uint(b))
-				}
-			case token.SHR:
-				if b < 0 || b > 63 {
-					r = 0
-				} else {
-					r = int64(uint64(a) >> uint(b))
-				}
-			case token.AND:
-				r = a & b
-			case token.OR:
-				r = a | b
-			case token.LSS:
-				return bl(a < b), true
-			case token.LEQ:
-				return bl(a <= b), true
-			case token.GTR:
-				return bl(a > b), true
-			case token.GEQ:
-				return bl(a >= b), true
-			case token.EQL:
-				return bl(a == b), true
-			case token.NEQ:
-				return bl(a != b), true
-			default:
-				return 0, false
-			}
-			return truncTo(r, x.Type()), true
-		}
-		return 0, false
-	}
+	eval := func(v ssa.Value, depth int) (int64, bool) { return constEval(env, v, depth) }
 	// initial values of the header phis: from the edge that is not a back edge
 	var phis []*ssa.Phi
 	for _, in := range header.Instrs {
@@ -638,3 +548,377 @@ func truncTo(n int64, t types.Type) int64 {
 }
 
 func dbgState(st *State) string { if os.Getenv("TTDBG") != "" { return " {" + st.describe() + "}" }; return "" }
+
+// ttStackageStructsTried: stackageStructsEqual reports "tried" exactly when
+// the left operand is one of ours (a Condition or a Stack, aliases and
+// pointers included), whatever the right one is: a Stack against a Condition
+// must end in this function's error, not fall through to the generic struct
+// comparison (which sees one unexported pointer field on each side).
+func (c *Ctx) ttStackageStructsTried() {
+	convAtom := func(name, conv string) ttAtom {
+		return ttAtom{name, func(fa *FnAnalysis, st *State) (bool, bool) {
+			for _, call := range c.findCalls(fa.fn, conv) {
+				if t := fa.term(st, call.Call.Args[0]); !(t.K == "P" && t.N == 0) {
+					continue
+				}
+				if _, did := st.cep[call]; !did {
+					continue
+				}
+				if v, known := fa.knownTerm(st, aTR, fa.callResultTerm(st, call, 1)); known {
+					return v, true
+				}
+			}
+			return false, false
+		}}
+	}
+	c.runTable(ttTable{
+		rule: "R-TT", fn: "stackageStructsEqual",
+		atoms:   []ttAtom{convAtom("x is Condition", "conditionTypeAliasConverter"), convAtom("x is Stack", "stackTypeAliasConverter")},
+		expect:  func(v map[string]bool) string { return fmt.Sprint(v["x is Condition"] || v["x is Stack"]) },
+		outcome: c.boolOutcome(0),
+	})
+}
+
+// convDeclined: on state s the converter conv was applied to the value vt and
+// declined it (ok == false, or the instance it returned is not initialised).
+func (c *Ctx) convDeclined(fa *FnAnalysis, fn *ssa.Function, s *State, vt *Term, conv string) bool {
+	for _, cc := range c.findCalls(fn, conv) {
+		if _, did := s.cep[cc]; !did || fa.term(s, cc.Call.Args[0]) != vt {
+			continue
+		}
+		if v, known := fa.knownTerm(s, aTR, fa.callResultTerm(s, cc, 1)); known && !v {
+			return true
+		}
+		r0 := fa.callResultTerm(s, cc, 0)
+		for _, ic := range c.findCalls(fn, "Stack.IsInit", "Condition.IsInit") {
+			if fa.term(s, ic.Call.Args[0]) == r0 {
+				if v, known := fa.knownTerm(s, aTR, fa.term(s, ic)); known && !v {
+					return true
+				}
+			}
+		}
+	}
+	return false
+}
+
+// ruleUnmarshalRaw: stack.unmarshalDefault hands an element back as it is only
+// where both converters have declined that very element - no shortcut (by
+// method set, kind, ...) may take a Stack/Condition alias for plain data.
+func (c *Ctx) ruleUnmarshalRaw() {
+	fn := c.anchor("R-CONV", "stack.unmarshalDefault")
+	if fn == nil {
+		return
+	}
+	fa := c.eng.analyze(fn, nil)
+	pos := c.p.pos(fn.Pos())
+	var problems []string
+	n := 0
+	for _, b := range fn.Blocks {
+		for _, in := range b.Instrs {
+			st, ok := in.(*ssa.Store)
+			if !ok {
+				continue
+			}
+			ex, ok := st.Val.(*ssa.Extract)
+			if !ok || ex.Index != 0 {
+				continue
+			}
+			call, ok := ex.Tuple.(*ssa.Call)
+			if !ok || c.calleeName(&call.Call) != "stack.index" {
+				continue
+			}
+			n++
+			for _, s := range fa.statesBefore(st) {
+				vt := fa.term(s, ex)
+				for _, conv := range []string{"stackTypeAliasConverter", "conditionTypeAliasConverter"} {
+					if !c.convDeclined(fa, fn, s, vt, conv) {
+						problems = append(problems, c.p.instrPos(st)+": an element is handed back as it is on a path where "+conv+" has not declined it (an alias would come back raw instead of as its kind word and elements)")
+					}
+				}
+			}
+		}
+	}
+	if n == 0 {
+		problems = append(problems, "no raw pass-through of an element found (anchor)")
+	}
+	if len(problems) == 0 {
+		c.rep.ok("R-CONV", "stack.unmarshalDefault", "raw only after both converters declined", pos, fmt.Sprintf("%d raw pass-through store(s), each behind both converters' refusal", n))
+	} else {
+		sort.Strings(problems)
+		c.rep.bad("R-CONV", "stack.unmarshalDefault", "raw only after both converters declined", pos, strings.Join(uniq(problems), "; "))
+	}
+}
+
+// ruleWrapperRefusals: Insert and Replace refuse a value only because it is
+// nil: a path that returns without having called the worker may depend on the
+// receiver (initialised, read-only, ...) and on the nil-ness of the value, on
+// nothing else about the value (its dynamic type, its length, its validity).
+func (c *Ctx) ruleWrapperRefusals() {
+	for _, w := range []struct{ fn, worker string }{{"Stack.Insert", "(*stack).insert"}, {"Stack.Replace", "(*stack).replace"}} {
+		fn := c.anchor("R-SEQ", w.fn)
+		if fn == nil {
+			continue
+		}
+		fa := c.eng.analyze(fn, nil)
+		pos := c.p.pos(fn.Pos())
+		workers := c.findCalls(fn, w.worker)
+		var problems []string
+		if len(workers) == 0 {
+			problems = append(problems, "the worker "+w.worker+" is not called")
+		}
+		nRefuse := 0
+		for _, rs := range fa.rets {
+			if rs.st.dead {
+				continue
+			}
+			called := false
+			for _, wk := range workers {
+				if did, _ := rs.st.get(aDID, c.eng.tt.mk(Term{K: "V", V: wk})); did {
+					called = true
+				}
+			}
+			if called {
+				continue
+			}
+			nRefuse++
+			for _, f := range rs.st.factList() {
+				if !termMentionsParam(f.T, 1) {
+					continue
+				}
+				if f.Kind == aNN && f.T.K == "P" {
+					continue
+				}
+				if f.T.K == "APP" && strings.HasPrefix(f.T.S, "isNilPtr") {
+					continue
+				}
+				problems = append(problems, "a refusing path depends on the offered value beyond its nil-ness: "+f.Kind+"|"+f.T.Key()+"="+fmt.Sprint(f.Val))
+			}
+		}
+		if len(problems) == 0 {
+			c.rep.ok("R-SEQ", w.fn, "refuses a value only for being nil", pos, fmt.Sprintf("%d refusing path(s), none depends on the value's type or content", nRefuse))
+		} else {
+			sort.Strings(problems)
+			if len(problems) > 3 {
+				problems = problems[:3]
+			}
+			c.rep.bad("R-SEQ", w.fn, "refuses a value only for being nil", pos, strings.Join(uniq(problems), "; "))
+		}
+	}
+}
+
+// constEval evaluates v over integer/boolean constants and the values bound in env.
+func constEval(env map[ssa.Value]int64, v ssa.Value, depth int) (int64, bool) {
+	if depth > 20 {
+		return 0, false
+	}
+	if x, ok := env[v]; ok {
+		return x, true
+	}
+	switch x := v.(type) {
+	case *ssa.Const:
+		if x.Value == nil {
+			return 0, false
+		}
+		if x.Value.Kind() == constant.Bool {
+			if constant.BoolVal(x.Value) {
+				return 1, true
+			}
+			return 0, true
+		}
+		if n, ok := constant.Int64Val(constant.ToInt(x.Value)); ok {
+			return n, true
+		}
+		if u, ok := constant.Uint64Val(constant.ToInt(x.Value)); ok {
+			return int64(u), true
+		}
+		return 0, false
+	case *ssa.Convert:
+		n, ok := constEval(env, x.X, depth+1)
+		if !ok {
+			return 0, false
+		}
+		return truncTo(n, x.Type()), true
+	case *ssa.ChangeType:
+		return constEval(env, x.X, depth+1)
+	case *ssa.MakeInterface:
+		return constEval(env, x.X, depth+1)
+	case *ssa.BinOp:
+		a, ok1 := constEval(env, x.X, depth+1)
+		b, ok2 := constEval(env, x.Y, depth+1)
+		if !ok1 || !ok2 {
+			return 0, false
+		}
+		bl := func(t bool) int64 {
+			if t {
+				return 1
+			}
+			return 0
+		}
+		var r int64
+		switch x.Op {
+		case token.ADD:
+			r = a + b
+		case token.SUB:
+			r = a - b
+		case token.MUL:
+			r = a * b
+		case token.SHL:
+			if b < 0 || b > 63 {
+				r = 0
+			} else {
+				r = int64(uint64(a) << uint(b))
+			}
+		case token.SHR:
+			if b < 0 || b > 63 {
+				r = 0
+			} else {
+				r = int64(uint64(a) >> uint(b))
+			}
+		case token.AND:
+			r = a & b
+		case token.OR:
+			r = a | b
+		case token.LSS:
+			return bl(a < b), true
+		case token.LEQ:
+			return bl(a <= b), true
+		case token.GTR:
+			return bl(a > b), true
+		case token.GEQ:
+			return bl(a >= b), true
+		case token.EQL:
+			return bl(a == b), true
+		case token.NEQ:
+			return bl(a != b), true
+		default:
+			return 0, false
+		}
+		return truncTo(r, x.Type()), true
+	}
+	return 0, false
+}
+
+// ruleKindLabels: (*nodeConfig).kind answers the type word's own label for every
+// defined kind constant - the writer of the wire format labels each node with it
+// and the reader recognises exactly those labels.  The gating test is evaluated
+// over the constants: for each kind constant the paths through kind() are
+// followed (the type word bound to the constant, the record taken to exist)
+// and none may end in the "null" label.
+func (c *Ctx) ruleKindLabels() {
+	fn := c.anchor("R-TBL", "(*nodeConfig).kind")
+	if fn == nil {
+		return
+	}
+	pos := c.p.pos(fn.Pos())
+	typIdx := c.fieldIndex("nodeConfig", "typ")
+	// the kind constants: package-level constants of the type of nodeConfig.typ
+	var typT types.Type
+	if st, ok := c.p.namedType("nodeConfig").Underlying().(*types.Struct); ok && typIdx >= 0 {
+		typT = st.Field(typIdx).Type()
+	}
+	type kc struct {
+		name string
+		val  int64
+	}
+	var consts []kc
+	scope := c.p.Types.Scope()
+	for _, n := range scope.Names() {
+		if k, ok := scope.Lookup(n).(*types.Const); ok && typT != nil && types.Identical(k.Type(), typT) {
+			if v, ok := constant.Int64Val(constant.ToInt(k.Val())); ok && v != 0 {
+				consts = append(consts, kc{n, v})
+			}
+		}
+	}
+	if len(consts) < 6 {
+		c.rep.bad("R-TBL", "(*nodeConfig).kind", "KINDS: every kind has its label", pos, fmt.Sprintf("only %d kind constants found", len(consts)))
+		return
+	}
+	var problems []string
+	for _, k := range consts {
+		env := map[ssa.Value]int64{}
+		for _, b := range fn.Blocks {
+			for _, in := range b.Instrs {
+				switch x := in.(type) {
+				case *ssa.UnOp:
+					if fa, ok := x.X.(*ssa.FieldAddr); ok && x.Op == token.MUL && fa.Field == typIdx && c.isNamed(fa.X.Type(), "nodeConfig") {
+						env[x] = k.val
+					}
+				case *ssa.Call:
+					if cn := c.calleeName(&x.Call); cn == "(*nodeConfig).isZero" || cn == "nodeConfig.isZero" {
+						env[x] = 0
+					}
+				}
+			}
+		}
+		// follow the paths
+		type item struct {
+			b, pred *ssa.BasicBlock
+			label   map[*ssa.Phi]string
+		}
+		work := []item{{fn.Blocks[0], nil, map[*ssa.Phi]string{}}}
+		steps := 0
+		for len(work) > 0 && steps < 500 {
+			steps++
+			it := work[len(work)-1]
+			work = work[:len(work)-1]
+			lab := map[*ssa.Phi]string{}
+			for p, v := range it.label {
+				lab[p] = v
+			}
+			strOf := func(v ssa.Value) string {
+				if kk, ok := v.(*ssa.Const); ok && kk.Value != nil && kk.Value.Kind() == constant.String {
+					return "const:" + constant.StringVal(kk.Value)
+				}
+				if p, ok := v.(*ssa.Phi); ok {
+					if s, ok := lab[p]; ok {
+						return s
+					}
+				}
+				return "dyn"
+			}
+			for _, in := range it.b.Instrs {
+				if p, ok := in.(*ssa.Phi); ok && it.pred != nil {
+					for i, pb := range it.b.Preds {
+						if pb == it.pred {
+							lab[p] = strOf(p.Edges[i])
+						}
+					}
+				}
+			}
+			last := it.b.Instrs[len(it.b.Instrs)-1]
+			switch x := last.(type) {
+			case *ssa.Return:
+				if len(x.Results) == 1 && strOf(x.Results[0]) == "const:null" {
+					problems = append(problems, "kind "+k.name+" is labelled \"null\" ("+c.p.instrPos(x)+"): the reader does not recognise that word")
+				}
+			case *ssa.If:
+				if v, ok := constEval(env, x.Cond, 0); ok {
+					idx := 1
+					if v != 0 {
+						idx = 0
+					}
+					work = append(work, item{it.b.Succs[idx], it.b, lab})
+				} else {
+					work = append(work, item{it.b.Succs[0], it.b, lab}, item{it.b.Succs[1], it.b, lab})
+				}
+			default:
+				for _, sc := range it.b.Succs {
+					work = append(work, item{sc, it.b, lab})
+				}
+			}
+		}
+		if steps >= 500 {
+			problems = append(problems, "path exploration did not terminate")
+		}
+	}
+	if len(problems) == 0 {
+		var ns []string
+		for _, k := range consts {
+			ns = append(ns, k.name)
+		}
+		c.rep.ok("R-TBL", "(*nodeConfig).kind", "KINDS: every kind has its label", pos, "no path answers \"null\" for "+strings.Join(ns, ","))
+	} else {
+		sort.Strings(problems)
+		c.rep.bad("R-TBL", "(*nodeConfig).kind", "KINDS: every kind has its label", pos, strings.Join(uniq(problems), "; "))
+	}
+}
